@@ -47,6 +47,12 @@ def main():
             if rc == 0:
                 sh(f"cp /repo/breezy/*.so {wt}/breezy/")
                 rc, o = sh(["git", "-C", wt, "apply", patch])
+                if rc != 0:
+                    # /repo HEAD moved (fix: commits) since the patch was made: retry with fuzz
+                    rc, o2 = sh(f"patch -p1 -F3 --no-backup-if-mismatch < {patch}", cwd=wt)
+                    o += o2
+                    if rc == 0:
+                        out["applied_with_fuzz"] = True
         if rc != 0:
             out["error"] = "patch does not apply: " + o[-500:]
         else:
